@@ -314,6 +314,9 @@ ANN_SOURCES = [
     "def f(a: Literal['a b', 1, None], b: 'List[t.Literal[\"q\"]]', c: \"typing.Literal['z']\") -> 'a.B':\n    pass\n",
     "def f(a: List['a.B'] = [], *args: 'int', k: t.Literal['only'] = 'only', **kw: \"List['str']\"):\n    pass\n",
     "def f(a: typing_extensions.Literal['pass', 'class']) -> List[typing_extensions.Literal['x']]:\n    pass\n",
+    # strings that are only a part of the annotation, next to an operator that binds tighter than theirs
+    "def f(a: A & 'B | C', b: ~'A | B' = 1, c: 'int' | None = None, d: 'A | B' & 'C | D' = 0) -> -'a + b':\n    pass\n",
+    "def f(a: List['A | B'] | 'C & D', b: ('X' | Y)['Z | W'] = 2) -> 'P | Q' | R:\n    pass\n",
 ]
 
 
